@@ -143,10 +143,16 @@ func uintMod(t types.Type) (string, bool) {
 
 // assumeTyped adds the type invariants of a value read from memory or received from outside.
 func (e *Engine) assumeTyped(st *State, v Val) {
+	e.assumeTypedAt(st, v, st.alive)
+}
+
+// assumeTypedAt: like assumeTyped, but references are known alive already at allocation time `bound`
+// (the time the heap array version they were read from was created).
+func (e *Engine) assumeTypedAt(st *State, v Val, bound string) {
 	if v.K != KTerm || v.Typ == nil {
 		return
 	}
-	key := v.T + "@" + st.alive
+	key := v.T + "@" + bound
 	if len(v.T) > 400 {
 		// large terms: still add but do not memoise on text
 	}
@@ -160,9 +166,9 @@ func (e *Engine) assumeTyped(st *State, v Val) {
 			st.assume(fmt.Sprintf("(and (<= 0 %s) (<= %s %s))", v.T, v.T, mx))
 		}
 	case SRef:
-		st.assume(fmt.Sprintf("(or (= %s rnil) (< (stamp %s) %s))", v.T, v.T, st.alive))
+		st.assume(fmt.Sprintf("(or (= %s rnil) (< (stamp %s) %s))", v.T, v.T, bound))
 	case SSlice:
-		st.assume(fmt.Sprintf("(and (<= 0 (soff %s)) (<= 0 (slen %s)) (<= (slen %s) (scap %s)) (=> (= (sarr %s) rnil) (= (scap %s) 0)) (or (= (sarr %s) rnil) (< (stamp (sarr %s)) %s)))", v.T, v.T, v.T, v.T, v.T, v.T, v.T, v.T, st.alive))
+		st.assume(fmt.Sprintf("(and (<= 0 (soff %s)) (<= 0 (slen %s)) (<= (slen %s) (scap %s)) (=> (= (sarr %s) rnil) (= (scap %s) 0)) (or (= (sarr %s) rnil) (< (stamp (sarr %s)) %s)))", v.T, v.T, v.T, v.T, v.T, v.T, v.T, v.T, bound))
 	case SBytes:
 		e.bytesFacts(st, v.T)
 		if b, ok := v.Typ.Underlying().(*types.Basic); ok && b.Info()&types.IsString != 0 {
@@ -180,6 +186,7 @@ func (e *Engine) heapStore(st *State, name string, idx, val string) {
 	st.declare(nn, srt)
 	st.assume(eq(nn, store(cur, idx, val)))
 	st.heap[name] = nn
+	st.heapNow[name] = st.alive
 	st.markMod(name)
 	if st.dry != nil {
 		if st.dry.mod.bases[name] == nil {
@@ -194,6 +201,7 @@ func (e *Engine) heapSet(st *State, name string, termv string) {
 	st.declare(nn, e.heapSort(name))
 	st.assume(eq(nn, termv))
 	st.heap[name] = nn
+	st.heapNow[name] = st.alive
 	st.markMod(name)
 	if st.dry != nil {
 		st.dry.mod.whole[name] = true
@@ -204,6 +212,7 @@ func (e *Engine) heapHavoc(st *State, name string) string {
 	nn := e.d.fresh(name)
 	st.declare(nn, e.heapSort(name))
 	st.heap[name] = nn
+	st.heapNow[name] = st.alive
 	st.markMod(name)
 	if st.dry != nil {
 		st.dry.mod.whole[name] = true
@@ -344,12 +353,12 @@ func (e *Engine) load(st *State, a Val, pos token.Pos) Val {
 	case KField:
 		et := elemType(a.Typ)
 		v := term(sel(st.heapGet(a.Heap), a.Base), e.d.SortOf(et), et)
-		e.assumeTyped(st, v)
+		e.assumeTypedAt(st, v, st.heapBound(a.Heap))
 		return v
 	case KElem:
 		et := elemType(a.Typ)
 		v := term(sel(sel(st.heapGet(a.Heap), a.Base), a.Idx), e.d.SortOf(et), et)
-		e.assumeTyped(st, v)
+		e.assumeTypedAt(st, v, st.heapBound(a.Heap))
 		return v
 	case KArrPtr:
 		et := elemType(a.Typ)
@@ -373,7 +382,7 @@ func (e *Engine) load(st *State, a Val, pos token.Pos) Val {
 		}
 		s := e.d.SortOf(et)
 		v := term(sel(st.heapGet(e.d.BoxHeap(s)), a.T), s, et)
-		e.assumeTyped(st, v)
+		e.assumeTypedAt(st, v, st.heapBound(e.d.BoxHeap(s)))
 		return v
 	}
 	panic(unsupported(fmt.Sprintf("load kind %d", a.K)))
@@ -539,12 +548,63 @@ func (e *Engine) oblige(st *State, class string, pos token.Pos, detail string, g
 		}
 		st.typed[key] = true
 	}
-	ob := &Oblig{Name: base, Class: class, Pos: p, Goal: goal, Detail: detail}
-	st.items = append(st.items, Item{Kind: ItOblig, Ob: ob})
-	// assert-then-assume: later obligations on this path are checked under "no earlier failure"
-	if class != "canary" && goal != "false" {
-		st.assume(goal)
+	// a conjunction is checked conjunct by conjunct (smaller, more stable queries), each assumed once checked
+	for _, g := range splitAnd(goal) {
+		ob := &Oblig{Name: base, Class: class, Pos: p, Goal: g, Detail: detail}
+		st.items = append(st.items, Item{Kind: ItOblig, Ob: ob})
+		// assert-then-assume: later obligations on this path are checked under "no earlier failure"
+		if class != "canary" && g != "false" {
+			st.assume(g)
+		}
 	}
+}
+
+// splitAnd flattens nested top-level conjunctions of an SMT term.
+func splitAnd(t string) []string {
+	t = strings.TrimSpace(t)
+	if !strings.HasPrefix(t, "(and ") {
+		return []string{t}
+	}
+	inner := t[5 : len(t)-1]
+	var parts []string
+	depth := 0
+	start := -1
+	for i := 0; i < len(inner); i++ {
+		c := inner[i]
+		switch {
+		case c == '(':
+			if depth == 0 && start < 0 {
+				start = i
+			}
+			depth++
+		case c == ')':
+			depth--
+			if depth == 0 && start >= 0 {
+				parts = append(parts, inner[start:i+1])
+				start = -1
+			}
+		case c == ' ' || c == '\n' || c == '\t':
+			if depth == 0 && start >= 0 {
+				parts = append(parts, inner[start:i])
+				start = -1
+			}
+		default:
+			if depth == 0 && start < 0 {
+				start = i
+			}
+		}
+	}
+	if start >= 0 {
+		parts = append(parts, inner[start:])
+	}
+	var out []string
+	for _, p := range parts {
+		out = append(out, splitAnd(p)...)
+	}
+	if len(out) == 0 {
+		return []string{"true"}
+	}
+	return out
 }
 
 func (e *Engine) obPrefix(st *State) string {
